@@ -56,6 +56,7 @@ pub enum Ev {
 pub struct Ledger {
     pub recs: Vec<Rec>, // index = id (id 0 unused)
     pub live: u64,
+    pub pinned: u64,
     pub created: u64,
     pub destroyed: u64,
     pub touches: u64,
@@ -63,6 +64,36 @@ pub struct Ledger {
     pub events: Vec<Ev>,
     pub drop_log: Vec<u64>, // ids destroyed since last `take_drop_log`
     pub log_drops: bool,
+    /// rolling digest of every client-boundary event (creation, destruction, touch with site,
+    /// value edits, scalars fed by the harness): the canonical trace compared by C16/C18
+    pub digest: u64,
+}
+
+#[inline]
+fn dmix(d: u64, a: u64, b: u64) -> u64 {
+    let x = (d.rotate_left(7) ^ a).wrapping_mul(0x9E37_79B9_7F4A_7C15) ^ b.wrapping_mul(0xC2B2_AE3D_27D4_EB4F);
+    x ^ (x >> 29)
+}
+
+/// feed a scalar observed by the harness (return values, lengths, flags) into the trace digest
+pub fn trace_num(tag: u64, x: u64) {
+    with_ledger(|l| l.digest = dmix(l.digest, tag, x));
+}
+pub fn trace_str(tag: u64, s: &str) {
+    let h = crate::util::hash64(s);
+    with_ledger(|l| l.digest = dmix(l.digest, tag, h));
+}
+pub fn trace_digest() -> u64 {
+    with_ledger(|l| l.digest)
+}
+fn site_tag(s: &str) -> u64 {
+    // cheap, stable
+    let b = s.as_bytes();
+    let mut h = 1469598103934665603u64;
+    for c in b {
+        h = (h ^ *c as u64).wrapping_mul(1099511628211);
+    }
+    h
 }
 
 impl Ledger {
@@ -72,6 +103,7 @@ impl Ledger {
         Ledger {
             recs,
             live: 0,
+            pinned: 0,
             created: 0,
             destroyed: 0,
             touches: 0,
@@ -79,6 +111,7 @@ impl Ledger {
             events: Vec::new(),
             drop_log: Vec::new(),
             log_drops: false,
+            digest: 0,
         }
     }
 }
@@ -97,6 +130,7 @@ pub fn ledger_reset() {
     with_ledger(|l| {
         l.recs.truncate(1);
         l.live = 0;
+        l.pinned = 0;
         l.epoch = 0;
         l.events.clear();
         l.drop_log.clear();
@@ -104,8 +138,9 @@ pub fn ledger_reset() {
     FP.with(|f| f.set(Fp::OFF));
 }
 
+/// live tokens, not counting the ones the harness pinned for itself
 pub fn ledger_live() -> u64 {
-    with_ledger(|l| l.live)
+    with_ledger(|l| l.live - l.pinned.min(l.live))
 }
 pub fn ledger_next_id() -> u64 {
     with_ledger(|l| l.recs.len() as u64)
@@ -170,6 +205,7 @@ fn ledger_new_id(val: u32, parent: u64) -> u64 {
         l.recs.push(Rec { st: St::Live, drops: 0, val, parent, epoch });
         l.live += 1;
         l.created += 1;
+        l.digest = dmix(l.digest, 0xC0 ^ (parent << 8), id ^ ((val as u64) << 40));
         id
     })
 }
@@ -352,7 +388,10 @@ impl<P: Pad> TokG<P> {
     /// a token the harness keeps for itself (garbage images, comparison operands)
     pub fn new_pinned(val: u32) -> Self {
         let t = Self::new(val);
-        with_ledger(|l| l.recs[t.id as usize].epoch = PINNED);
+        with_ledger(|l| {
+            l.recs[t.id as usize].epoch = PINNED;
+            l.pinned += 1;
+        });
         t
     }
 
@@ -381,6 +420,7 @@ impl<P: Pad> TokG<P> {
         let (id, val, chk) = (self.id, self.val, self.chk);
         with_ledger(|l| {
             l.touches += 1;
+            l.digest = dmix(l.digest, site_tag(site), id ^ ((val as u64) << 40));
             if chk != mix(id, val) || id == 0 || id as usize >= l.recs.len() {
                 l.events.push(Ev::GarbageTouched(id, chk, site));
                 return false;
@@ -399,6 +439,7 @@ impl<P: Pad> Drop for TokG<P> {
         let (id, val, chk) = (self.id, self.val, self.chk);
         let ok = with_ledger(|l| {
             l.touches += 1;
+            l.digest = dmix(l.digest, 0xD0, id ^ ((val as u64) << 40));
             if chk != mix(id, val) || id == 0 || id as usize >= l.recs.len() {
                 l.events.push(Ev::GarbageTouched(id, chk, "drop"));
                 return false;
@@ -410,8 +451,12 @@ impl<P: Pad> Drop for TokG<P> {
                 l.events.push(Ev::DoubleDrop(id));
                 return false;
             }
+            let pinned = r.epoch == PINNED;
             if r.st == St::Live {
                 l.live -= 1;
+                if pinned {
+                    l.pinned = l.pinned.saturating_sub(1);
+                }
             }
             r.st = St::Dead;
             l.destroyed += 1;
